@@ -131,6 +131,24 @@ def walk(node):
                 stack.append(v)
 
 
+def walk_own(node):
+    """like walk(), but without descending into lambda bodies: the nodes of the function itself"""
+    stack = [node]
+    while stack:
+        n = stack.pop()
+        if isinstance(n, dict):
+            yield n
+            if n.get("k") == "lambda":
+                continue
+            for k in reversed(CHILD_ORDER.get(n.get("k"), sorted(n.keys()))):
+                v = n.get(k)
+                if isinstance(v, (dict, list)):
+                    stack.append(v)
+        elif isinstance(n, list):
+            for v in reversed(n):
+                stack.append(v)
+
+
 CHILD_ORDER = {
     "block": ["body"], "if": ["init", "cond", "then", "else"], "for": ["init", "cond", "inc", "body"],
     "rfor": ["var", "range", "body"], "decl": ["init"], "return": ["e"], "expr": ["e"],
